@@ -242,6 +242,14 @@ func c05Alphabet(s *sessSys) []sessReq {
 					up.UEAlloc, up.UEIP = false, int2ip(p2.UE).String()
 					add("mod-updr-explicit-ue", sessReq{sReq: sReq{Kind: kMod, Conn: c, UpdatePDR: []sPDR{up}}, Sess: x.Idx})
 				}
+				if p2 := x.pdr(2); p2 != nil && p2.AllocUE && p2.UE != 0 {
+					// refused modifications that ask for the (sticky) UP-side address again before the rule fails to parse: the
+					// address of the living session stays taken
+					add("mod-rejected-create-alloc-pdr-bad-sdf", sessReq{sReq: sReq{Kind: kMod, Conn: c, CreatePDR: []sPDR{{ID: 9, Prec: 10, Src: ie.SrcInterfaceCore, UEAlloc: true, BadSDF: true, FAR: 2}}}, Sess: x.Idx})
+					up := p2.sPDR
+					up.BadSDF = true
+					add("mod-rejected-update-alloc-pdr-bad-sdf", sessReq{sReq: sReq{Kind: kMod, Conn: c, UpdatePDR: []sPDR{up}}, Sess: x.Idx})
+				}
 				if p1 := x.pdr(1); p1 != nil && p1.ChoseTEID {
 					add("mod-remove-choose-pdr", sessReq{sReq: sReq{Kind: kMod, Conn: c, RemovePDR: []uint16{1}}, Sess: x.Idx})
 					add("mod-rejected-remove-choose-pdr-then-unknown-far", sessReq{sReq: sReq{Kind: kMod, Conn: c, RemovePDR: []uint16{1}, RemoveFAR: []uint32{99}}, Sess: x.Idx})
@@ -298,6 +306,10 @@ func c05Oracle(c *stepCtx) {
 	s := c.sys
 	if c.pframe != "" {
 		s.violation("c05:panic:"+c.pframe, "handler panicked on "+c.req.Label+": "+c.pmsg)
+		return
+	}
+	if l := vLeakedLock(s.in.u); l != "" {
+		s.violation("c05:lock-held-after-request:"+l, fmt.Sprintf("%s is still held after %s returned", l, c.req.Label))
 		return
 	}
 	if c.req.Kind == kEst || c.req.Kind == kMod || c.req.Kind == kDel {
